@@ -25,7 +25,7 @@ TEXT = {
           "frontier is the fold of the accepted patches (state_is_fold_of_patches), a view at the acknowledged momentum is "
           "independent of how far the frontier has moved (view_independent_of_frontier), change sets are write-order "
           "independent; generated fact: no wall-clock/random/goroutine site outside the reviewed list. Tied to the code by "
-          "a producer + six followers under generated delivery schedules (batches, gossip ahead, gossiped RIVAL blocks of the "
+          "a producer + seven followers under generated delivery schedules (batches, gossip ahead, gossiped RIVAL blocks of the "
           "same account and height, restarts, overlaps) with byte-exact state comparison, by feeding the real redo patches "
           "through the model, and by a deep scenario: a chain longer than the near-cache window (360), historical views near "
           "and far materialised before the head momentum is replaced by a delivered branch, every view compared warm, after "
@@ -136,7 +136,9 @@ TEXT = {
   "design_ref": "§3 C04",
   "note": "Theorems are about the current chain of one node (T1-T4, N1); reorg/pool-replacement/restart stability (T5) is "
           "exercised by the stream only. Hash freshness is a hypothesis of reachability. Below "
-          "ReceiverMismatchEnforcementHeight T2/T3 are false of the code (known finding F8).",
+          "ReceiverMismatchEnforcementHeight T2/T3 are false of the code (known finding F8). Database read faults are not "
+          "injected: that a failing read of the received mark / inbox position is not answered like an absent key is a "
+          "regenerated AST fact (reviewed list of all reads of chain/account with their error handling).",
   "technique": "Lean 4 invariant proof (induction over reachable states) + differential replay of accepted blocks + at-most-once/FIFO monitors",
  },
  "C09": {
@@ -390,7 +392,8 @@ TEXT = {
   "design_ref": "§3 C14",
   "note": "Data-race freedom and reader atomicity are runtime properties (not theorems); readers are interposed at the "
           "listener boundaries of momentum insert/delete. The pool state machine is a "
-          "hand-written model; the two pure decision functions are tied by differential streams.",
+          "hand-written model; the two pure decision functions are tied by differential streams. Confinement of the "
+          "subscription table of rpc/api/subscribe to its worker goroutine is a regenerated call-graph fact (AST), not a race-detector run.",
   "technique": "Lean 4 proof (induction/omega) + regenerated constants + differential correspondence + node-level monitors",
  },
  "C11": {
